@@ -16,6 +16,7 @@ from mc.checks.c05 import ref_grid, scratch
 MUTS = ["mB", "mA", "mC"]
 SAMPLES = ["S2", "S1"]
 STATES = ["ok", "missing", "cn0", "dup"]
+EXTRA = "ok+cn0"  # one usable row plus a further row with major copy number zero in the same sample (the zero row alone is unusable)
 G = 5
 
 
@@ -41,6 +42,8 @@ def rows_for(cells, opt_cols, bad_cn=None):
                 rows.append(row())
         elif c == "cn0":
             rows.append(row(cn=0, minor=0))
+        elif c == EXTRA:
+            rows += [row(), row(cn=0, minor=0, k=2)]
         elif c == "dup":
             rows += [row(), row(k=1)]
     return rows
@@ -76,8 +79,8 @@ def load(path, cluster_file):
 def case(item):
     st, opt_cols, sep, clustered, tier = item
     cells = dict(zip(itertools.product(MUTS, SAMPLES), st))
-    keep = sorted(m for m in MUTS if all(cells[(m, s)] == "ok" for s in SAMPLES))
-    usable = {s for (m, s), c in cells.items() if c in ("ok", "dup")}
+    keep = sorted(m for m in MUTS if all(cells[(m, s)] in ("ok", EXTRA) for s in SAMPLES))
+    usable = {s for (m, s), c in cells.items() if c in ("ok", "dup", EXTRA)}
     degenerate = any(sorted(cells[(m, s)] for s in SAMPLES) in (["dup", "missing"], ["cn0", "dup"]) for m in MUTS)
     res = {"item": item, "problems": [], "loads": 0, "class": "normal"}
     if usable != set(SAMPLES) or not keep:
@@ -249,7 +252,7 @@ def bad_cn_case(item):
 
 def main(tier, seed):
     chk = Check("C17", tier, seed)
-    chk.rule = ("all 4^6 tables over mutations {mB,mA,mC} x samples {S2,S1} with each cell in {ok, missing, cn0, duplicated}, minus the two excluded families; "
+    chk.rule = ("all 4^6 tables over mutations {mB,mA,mC} x samples {S2,S1} with each cell in {ok, missing, cn0, duplicated}, minus the two excluded families, plus the tables with one cell (or both cells of a mutation; thorough: any cells) holding a usable row AND an extra zero-copy-number row; "
                 "x optional columns present/absent x tab/comma x with/without cluster file; ALL row permutations for tables of <= 5 rows, 8 structured orders "
                 "otherwise; oracle: pure-Python filter + the C05 emission model; non-trivial = table with at least one dropped mutation")
     chk.assumptions = ["degenerate offsetting tables (duplicate in one sample exactly offsetting a missing/cn0 row in the other) must be rejected or correctly filtered", "values compared at 1e-7 to the scipy model, 1e-12 across row orders"]
@@ -259,6 +262,26 @@ def main(tier, seed):
         vs = variants if tier == "thorough" else [variants[ti % 8], variants[(ti * 3 + 5) % 8]]
         for (oc, sep, cl) in vs:
             items.append((st, oc, sep, cl, tier))
+    # the fifth cell state: every table with one such cell (quick), every table over the five states (thorough)
+    if tier == "thorough":
+        for ti, st in enumerate(itertools.product(STATES + [EXTRA], repeat=6)):
+            if EXTRA in st:
+                for (oc, sep, cl) in (variants[ti % 8], variants[(ti * 3 + 5) % 8]):
+                    items.append((st, oc, sep, cl, tier))
+    else:
+        ti = 0
+        for pos in range(6):
+            for rest in itertools.product(STATES, repeat=5):
+                ti += 1
+                st = rest[:pos] + (EXTRA,) + rest[pos:]
+                oc, sep, cl = variants[ti % 8]
+                items.append((st, oc, sep, cl, tier))
+        for mi in range(3):
+            for rest in itertools.product(STATES, repeat=4):
+                ti += 1
+                st = list(rest[:2 * mi]) + [EXTRA, EXTRA] + list(rest[2 * mi:])
+                oc, sep, cl = variants[ti % 8]
+                items.append((tuple(st), oc, sep, cl, tier))
     classes = {}
     for r in pool_imap(case, items, chunksize=16):
         st = r["item"][0]
